@@ -239,6 +239,9 @@ def phased_script(draw, cid, conf, rkinds, pww):
     return sc
 
 
+EXTREME_IDS = [-2147483648, -2147483647, -2000000000, -1500000000, -2, 0, 5, 7, 1500000000, 2000000000, 2147483646, 2147483647]
+
+
 @st.composite
 def history_s(draw, pid, tier, conf=None, max_clients=None, distinct_ids=False, maxlen=None):
     prof = PROFILES.get(pid, PROFILES["default"])
@@ -256,7 +259,11 @@ def history_s(draw, pid, tier, conf=None, max_clients=None, distinct_ids=False, 
     if distinct_ids:
         ids = list(range(11, 11 + nscripts))
     else:
-        pool = draw(st.lists(st.integers(0, 40), min_size=1, max_size=3, unique=True))
+        if draw(st.integers(0, 6)) == 0:
+            # ids are C ints: any value but -1 is a client, including ones further apart than INT_MAX
+            pool = draw(st.lists(st.sampled_from(EXTREME_IDS), min_size=2, max_size=4, unique=True))
+        else:
+            pool = draw(st.lists(st.integers(0, 40), min_size=1, max_size=3, unique=True))
         ids = [draw(st.sampled_from(pool)) for _ in range(nscripts)]
     scripts = []
     for cid in ids:
